@@ -266,6 +266,9 @@ func passThroughTypes(t *schemaTable, o sgOutcome) []string {
 func ruleSGMap(c *Ctx) {
 	c.Rule("SG-MAP", "the schema generated for each Go kind is the documented one (integers long, floats double, bool boolean, string, byte slices bytes, slices array, maps map, structs record, pointers [null,T] or the element's own array/map/union), and every other kind is an error", 26)
 	P := c.P
+	if sgMapByFold(c) {
+		return
+	}
 	t := schemaTableOf(P)
 	if !c.Anchor(t.fn != nil, "schemaForType") {
 		return
@@ -444,6 +447,9 @@ func ruleSGNull(c *Ctx) {
 func ruleSGOrder(c *Ctx) {
 	c.Rule("SG-ORDER", "record fields are the struct's fields in declaration order, one per non-excluded field, named and typed from that same field", 4)
 	P := c.P
+	if sgOrderByFold(c) {
+		return
+	}
 	fn := schemaStructFn(P)
 	if !c.Anchor(fn != nil, "schemaForStruct") {
 		return
@@ -1124,3 +1130,315 @@ func isMutableContainer(t types.Type, d int) bool {
 }
 
 func P0isModule(path string) bool { return path == modPath || strings.HasPrefix(path, modPath+"/") }
+
+// schemaRootFn: the unexported function that takes a reflect.Type alone and
+// returns (Schema, error): the entry of schema generation below the exported
+// SchemaForType.
+func schemaRootFn(P *Program) *ssa.Function {
+	var out *ssa.Function
+	for _, fn := range P.ModuleFuncs() {
+		if fn.Pkg != P.Avro || fn.Parent() != nil || fn.Signature.Recv() != nil || len(fn.Params) != 1 || !isReflectType(fn.Params[0].Type()) {
+			continue
+		}
+		res := fn.Signature.Results()
+		if res.Len() != 2 || typeKey(res.At(0).Type()) != "avro.Schema" || !isErrorType(res.At(1).Type()) {
+			continue
+		}
+		if fn.Object() != nil && fn.Object().Exported() {
+			continue
+		}
+		if out != nil {
+			return nil // ambiguous
+		}
+		out = fn
+	}
+	return out
+}
+
+// sgMapByFold decides SG-MAP by folding schema generation (E-CP with the
+// model of reflect.Type) for one type of every Go kind: element int64, or
+// uint8 for the byte variants of slices and arrays; pointers to an int64, a
+// slice, a map and a pointer. Registry hits (the unknown result of looking
+// the type up in a package-level map, decided "found") are left to SG-REG.
+// Reports false, having emitted nothing, when a fold fails.
+func sgMapByFold(c *Ctx) bool {
+	P := c.P
+	root := schemaRootFn(P)
+	if root == nil {
+		return false
+	}
+	type verdict struct {
+		key, good, bad string
+		ok             bool
+	}
+	var vs []verdict
+	tab := map[string]string{}
+	// outcome of one fold, registry hits excluded: the set of schema types produced ("reject" for an error)
+	run := func(rt *cpRType) (map[string]bool, []cpOutcome, bool) {
+		outs, _, ok, _ := cpFoldOpt(P, root, []cpVal{rt}, nil)
+		if !ok {
+			return nil, nil, false
+		}
+		got := map[string]bool{}
+		var kept []cpOutcome
+		for _, o := range outs {
+			if o.Panics {
+				got["panic"] = true
+				continue
+			}
+			if len(o.Results) != 2 {
+				return nil, nil, false
+			}
+			// a registry hit anywhere on the way makes the result (partly) whatever was registered
+			hit := false
+			for _, cl := range o.Calls {
+				if cl.Callee != "maplookup" {
+					continue
+				}
+				if tup, isT := cl.Result.(cpTuple); isT && len(tup.Vs) == 2 {
+					if u, isU := tup.Vs[1].(cpUnk); isU && o.Decided[u.ID] {
+						hit = true
+					}
+				}
+			}
+			if hit {
+				continue
+			}
+			kept = append(kept, o)
+			switch ev := o.Results[1].(type) {
+			case cpNil:
+				tv, _ := cpFieldByName(o.Results[0], "Type")
+				if ts, isS := tv.(cpStr); isS {
+					got[ts.V] = true
+				} else {
+					got["?"] = true
+				}
+			case cpIface:
+				_ = ev
+				got["reject"] = true
+			default:
+				got["?"] = true
+			}
+		}
+		return got, kept, true
+	}
+	for k := reflect.Bool; k <= reflect.UnsafePointer; k++ {
+		variants := []struct {
+			key  string
+			byte bool
+		}{{k.String(), false}}
+		if k == reflect.Slice || k == reflect.Array {
+			variants = []struct {
+				key  string
+				byte bool
+			}{{k.String() + "/byte", true}, {k.String() + "/other", false}}
+		}
+		for _, v := range variants {
+			key := "avro.schemaForType/kind=" + v.key
+			if k == reflect.Ptr {
+				// pointer to a plain value: [null, T]; to a slice, a map or a pointer: the element's own schema
+				okAll, detail := true, ""
+				for _, pe := range []struct {
+					name string
+					k    reflect.Kind
+					byte bool
+					want string
+					t1   string // second branch of the union, where one is expected
+				}{{"int64", reflect.Int64, false, "union", "long"}, {"string", reflect.String, false, "union", "string"}, {"[]int64", reflect.Slice, false, "array", ""}, {"[]byte", reflect.Slice, true, "union", "bytes"}, {"map", reflect.Map, false, "map", ""}, {"*int64", reflect.Ptr, false, "union", "long"}, {"struct", reflect.Struct, false, "union", "record"}} {
+					ek := pe.k
+					elem := cpRTypeOfKind(ek, pe.byte)
+					rt := &cpRType{ID: "*" + elem.ID, Kind: int64(reflect.Ptr), Elem: elem, Size: 8}
+					got, kept, ok := run(rt)
+					if !ok {
+						return false
+					}
+					if len(got) > 1 {
+						delete(got, "reject")
+					}
+					tab["ptr->"+pe.name] = setStr(got)
+					if setStr(got) != pe.want {
+						okAll, detail = false, fmt.Sprintf("a pointer to %s generates %s, the documented mapping is %s", pe.name, setStr(got), pe.want)
+					}
+					if pe.t1 != "" {
+						// the union is exactly [null, T]
+						for _, o := range kept {
+							if _, isNil := o.Results[1].(cpNil); !isNil {
+								continue
+							}
+							uv, _ := cpFieldByName(o.Results[0], "Union")
+							sl, isSl := uv.(cpSlice)
+							good := isSl && len(sl.Elems) == 2
+							if good {
+								t0, _ := cpFieldByName(sl.Elems[0].V, "Type")
+								t1, _ := cpFieldByName(sl.Elems[1].V, "Type")
+								s0, ok0 := t0.(cpStr)
+								s1, ok1 := t1.(cpStr)
+								good = ok0 && ok1 && s0.V == "null" && s1.V == pe.t1
+							}
+							if !good {
+								okAll, detail = false, "the union generated for a pointer to "+pe.name+" is not [null, "+pe.t1+"] with null first"
+							}
+						}
+					}
+				}
+				vs = append(vs, verdict{key: key, ok: okAll, good: "pointer to a plain value -> [null, T]; to a slice, map or pointer -> the element's own schema (generation folded for each)", bad: detail})
+				continue
+			}
+			got, _, ok := run(cpRTypeOfKind(k, v.byte))
+			if !ok {
+				return false
+			}
+			// a composite kind can always fail through its element: ignore "reject" next to a real outcome
+			if len(got) > 1 {
+				delete(got, "reject")
+			}
+			if len(got) == 0 {
+				got["(no outcome)"] = true
+			}
+			want := specSchemaMap(k, v.byte)
+			tab[v.key] = setStr(got)
+			vs = append(vs, verdict{key: key, ok: setStr(got) == want, good: fmt.Sprintf("%s -> %s (generation folded for a type of that kind)", v.key, setStr(got)), bad: fmt.Sprintf("Go kind %s generates %s, the documented mapping is %s", v.key, setStr(got), want)})
+		}
+	}
+	c.Table("schema_table", tab)
+	for _, v := range vs {
+		c.Check(v.ok, v.key, P.pos(root.Pos()), v.good, v.bad)
+	}
+	return true
+}
+
+// sgOrderByFold decides SG-ORDER by folding schema generation (E-CP) for a
+// struct whose fields exercise every clause: a tagged field, an unexported
+// one, json:"-", bq:"-", an untagged one, an omitempty value and an omitempty
+// pointer. The record that comes out must list exactly the included fields,
+// in declaration order, each under its own name with its own type's schema.
+func sgOrderByFold(c *Ctx) bool {
+	P := c.P
+	root := schemaRootFn(P)
+	if root == nil {
+		c.Note("SG-ORDER fold gave up at point %d", 1)
+		return false
+	}
+	i64 := cpRTypeOfKind(reflect.Int64, false)
+	pi64 := &cpRType{ID: "*int64", Kind: int64(reflect.Ptr), Elem: i64, Size: 8}
+	rt := cpRTypeOfKind(reflect.Struct, false)
+	rt.Fields = []cpRField{
+		{Name: "A", Tag: `json:"alpha"`, Type: i64},
+		{Name: "b", PkgPath: "example.com/fx-pkg", Type: i64},
+		{Name: "C", Tag: `json:"-"`, Type: cpRTypeOfKind(reflect.String, false)},
+		{Name: "D", Tag: `bq:"-"`, Type: cpRTypeOfKind(reflect.Bool, false)},
+		{Name: "E", Type: cpRTypeOfKind(reflect.Float64, false)},
+		{Name: "F", Tag: `json:"f,omitempty"`, Type: i64},
+		{Name: "G", Tag: `json:"g,omitempty"`, Type: pi64},
+	}
+	want := [][2]string{{"alpha", "long"}, {"E", "double"}, {"f", "union"}, {"g", "union"}}
+	cpMaxOutcomes = 1024 // every field type is looked up in the registry: two outcomes per lookup
+	outs, _, ok, whyF := cpFoldOpt(P, root, []cpVal{rt}, nil)
+	cpMaxOutcomes = 96
+	if !ok {
+		c.Note("SG-ORDER: folding schema generation for the test struct failed (%s); falling back on the syntactic reading", whyF)
+		c.Note("SG-ORDER fold gave up at point %d", 2)
+		return false
+	}
+	n := 0
+	asc, same, skip, once := true, true, true, true
+	detail := ""
+	for _, o := range outs {
+		if o.Panics || len(o.Results) != 2 {
+			continue
+		}
+		if _, errNil := o.Results[1].(cpNil); !errNil {
+			continue
+		}
+		hit := false
+		for _, cl := range o.Calls {
+			if cl.Callee == "maplookup" {
+				if tup, isT := cl.Result.(cpTuple); isT && len(tup.Vs) == 2 {
+					if u, isU := tup.Vs[1].(cpUnk); isU && o.Decided[u.ID] {
+						hit = true
+					}
+				}
+			}
+		}
+		if hit {
+			continue
+		}
+		ov, _ := cpFieldByName(o.Results[0], "Object")
+		op, isP := ov.(cpPtr)
+		if !isP || op.C == nil {
+			c.Note("SG-ORDER fold gave up at point %d", 3)
+			return false
+		}
+		fv, _ := cpFieldByName(op.C.V, "Fields")
+		sl, isSl := fv.(cpSlice)
+		if !isSl {
+			if _, isNil := fv.(cpNil); !isNil && fv != nil {
+				c.Note("SG-ORDER fold gave up at point %d", 4)
+				return false
+			}
+		}
+		n++
+		var got [][2]string
+		for _, cell := range sl.Elems {
+			nv, _ := cpFieldByName(cell.V, "Name")
+			tv, _ := cpFieldByName(cell.V, "Type")
+			tt, _ := cpFieldByName(tv, "Type")
+			ns, ok1 := nv.(cpStr)
+			ts, ok2 := tt.(cpStr)
+			if !ok1 || !ok2 {
+				c.Note("SG-ORDER fold gave up at point %d", 5)
+				return false
+			}
+			got = append(got, [2]string{ns.V, ts.V})
+		}
+		detail = fmt.Sprintf("%v", got)
+		// clauses
+		pos := map[string]int{}
+		for i, g := range got {
+			if _, dup := pos[g[0]]; dup {
+				once = false
+			}
+			pos[g[0]] = i
+		}
+		last := -1
+		for _, w := range want {
+			p, has := pos[w[0]]
+			if !has {
+				skip = false
+				continue
+			}
+			if p < last {
+				asc = false
+			}
+			last = p
+			if got[p][1] != w[1] {
+				same = false
+			}
+		}
+		if len(got) != len(want) {
+			if len(got) > len(want) {
+				skip = false // an excluded field got in (or one twice)
+			}
+		}
+		for _, ex := range []string{"b", "C", "D", "-", ""} {
+			if _, has := pos[ex]; has {
+				skip = false
+			}
+		}
+	}
+	if n == 0 {
+		c.Note("SG-ORDER fold gave up at point %d", 6)
+		return false
+	}
+	key := fnKey(root)
+	if sf := schemaStructFn(P); sf != nil {
+		key = fnKey(sf)
+	}
+	pos := P.pos(root.Pos())
+	msg := "generation folded for struct{A `json:\"alpha\"`; b; C `json:\"-\"`; D `bq:\"-\"`; E; F `json:\"f,omitempty\"`; G *int64 `json:\"g,omitempty\"`} gives " + detail
+	c.Check(asc, key+"/ascending", pos, msg, "record fields do not come out in the struct's declaration order: "+detail)
+	c.Check(same, key+"/same-field", pos, msg, "a record field is not named and typed from its own struct field: "+detail)
+	c.Check(skip, key+"/skip-dash", pos, msg, "fields are not included exactly when they are exported and not tagged \"-\": "+detail)
+	c.Check(once, key+"/one-append", pos, msg, "a struct field appears more than once: "+detail)
+	return true
+}
